@@ -29,6 +29,16 @@ structure BufMap where
   size : Nat := 0
 deriving Repr, DecidableEq
 
+/-- abstraction of a run list: colour of offset `x`; `prev` = colour before the first run
+(released bytes below the first run are `Recved`) -/
+def colourAt : List Run → Colour → Nat → Colour
+  | [], prev, _ => prev
+  | (o, c) :: rest, prev, x => if x < o then prev else colourAt rest c x
+
+/-- abstraction function: per-byte colours of the coloured prefix, `Pending` beyond it -/
+def BufMap.abs (m : BufMap) (x : Nat) : Colour :=
+  if x < m.size then colourAt m.runs .recved x else .pending
+
 /-! ### `VecDeque` primitives with explicit panics -/
 
 def setAt (l : List Run) (i : Nat) (r : Run) : Res (List Run) :=
